@@ -8,4 +8,17 @@
 struct { int calls; unsigned long long value; int radix; _Bool upper; void *self; size_t k; char at; const char *start; } FMT;   /* last call of uint_formatter<T>::format (stub) */
 struct { int calls; const char *text; size_t size; int ntype; } FNS;                                          /* last call of format_numeric_string (stub) */
 static void num_ghosts(void) { GI0 = nondet_size_t(); GI1 = nondet_size_t(); GI2 = nondet_size_t(); GI3 = nondet_size_t(); ST_EXC = 0; ST_LIVE = 0; ST_FAULT = 0; FMT.calls = 0; FNS.calls = 0; }
+/* decimal digit counts and powers of ten per width (for "a decimal rendering of a W-bit value has at most DEC_DIGITS_W digits") */
+#define DEC_DIGITS_8 3
+#define DEC_DIGITS_16 5
+#define DEC_DIGITS_32 10
+#define DEC_DIGITS_64 20
+#define P10ULL(k) ((k) == 0 ? 1ull : (k) == 1 ? 10ull : (k) == 2 ? 100ull : (k) == 3 ? 1000ull : (k) == 4 ? 10000ull : (k) == 5 ? 100000ull : (k) == 6 ? 1000000ull : (k) == 7 ? 10000000ull : (k) == 8 ? 100000000ull : (k) == 9 ? 1000000000ull : \
+    (k) == 10 ? 10000000000ull : (k) == 11 ? 100000000000ull : (k) == 12 ? 1000000000000ull : (k) == 13 ? 10000000000000ull : (k) == 14 ? 100000000000000ull : (k) == 15 ? 1000000000000000ull : \
+    (k) == 16 ? 10000000000000000ull : (k) == 17 ? 100000000000000000ull : (k) == 18 ? 1000000000000000000ull : (k) == 19 ? 10000000000000000000ull : 0ull)
+/* MAX / 10^K, and 0 once 10^K exceeds the type (so "value <= LIM10(K)" then means value == 0) */
+#define LIM10_8(k) ((k) <= 2 ? 255ull / P10ULL(k) : 0ull)
+#define LIM10_16(k) ((k) <= 4 ? 65535ull / P10ULL(k) : 0ull)
+#define LIM10_32(k) ((k) <= 9 ? 4294967295ull / P10ULL(k) : 0ull)
+#define LIM10_64(k) ((k) <= 19 ? 18446744073709551615ull / P10ULL(k) : 0ull)
 #endif
